@@ -107,7 +107,7 @@ impl<F: Float, O> ParamGuard for PlattParams<F, O> {
 
     fn check_ref(&self) -> Result<&Self::Checked, PlattError> {
         if self.0.maxiter == 0 {
-            Err(PlattError::MaxIterReached)
+            Err(PlattError::MaxIterZero)
         } else if self.0.minstep.is_negative() {
             Err(PlattError::MinStepNegative(
                 self.0.minstep.to_f32().unwrap(),
